@@ -46,8 +46,30 @@ class _BytesLit(ast.NodeTransformer):
         node = self.generic_visit(node)
         return ast.copy_location(ast.Call(ast.Name("__symdict__", ast.Load()), [node], []), node)
 
+    def visit_Call(self, node):
+        node = self.generic_visit(node)
+        # <sep>.join(<items>) -> __join__(<sep>, <items>): a real str separator cannot join opaque strings
+        if isinstance(node.func, ast.Attribute) and node.func.attr == "join" and len(node.args) == 1 and not node.keywords:
+            return ast.copy_location(ast.Call(ast.Name("__join__", ast.Load()), [node.func.value, node.args[0]], []), node)
+        return node
+
 
 _CODE = {}
+
+
+_JOINS = [0]
+
+
+def _sym_join(sep, items):
+    """str.join that accepts opaque strings: the items are consumed (an iterator is exhausted) and the result is
+    another opaque string; everything else behaves as the separator's own join."""
+    if isinstance(sep, str):
+        items = list(items)
+        if any(getattr(i, "_ostr", False) or isinstance(i, SymStr) for i in items):
+            _JOINS[0] += 1
+            return OStr("join#%d(%s)" % (_JOINS[0], ",".join(getattr(i, "name", "s") if not isinstance(i, str) else repr(i) for i in items)))
+        return sep.join(items)
+    return sep.join(items)
 
 
 _LOGGING = []
@@ -741,7 +763,7 @@ class World:
             int=shim(int, sym_int, (SymInt,)),
             str=shim(str, sym_str, (SymStr, OStr)),
             float=shim(float, sym_float),
-            bytes=ABuf, bytearray=ABuf, __abuf__=ABuf, __symdict__=core.SymDict,
+            bytes=ABuf, bytearray=ABuf, __abuf__=ABuf, __symdict__=core.SymDict, __join__=_sym_join,
             memoryview=lambda x: _abuf.AView(x) if isinstance(x, (ABuf, _abuf.AView)) else _bi.memoryview(x),
             open=self.fs.open,
             print=lambda *a, **k: None,
